@@ -74,6 +74,7 @@ def repo():
     from perception_eval.common.dataset import FrameGroundTruth, load_all_datasets
     from perception_eval.common.label import LabelConverter
     from perception_eval.common.object import DynamicObject
+    from perception_eval.common.object2d import DynamicObject2D
     from perception_eval.common.schema import FrameID, Visibility
     from perception_eval.common.shape import Shape, ShapeType
     from perception_eval.common.evaluation_task import EvaluationTask
@@ -112,6 +113,7 @@ def repo():
         load_all_datasets=load_all_datasets,
         LabelConverter=LabelConverter,
         DynamicObject=DynamicObject,
+        DynamicObject2D=DynamicObject2D,
         FrameID=FrameID,
         Visibility=Visibility,
         Shape=Shape,
